@@ -2,7 +2,7 @@
  * models/num_strto.c -- assumed contract (G6) of strtoumax, strtoimax (C11 7.8.2.3 -> 7.22.1.4) and strtod
  * (C11 7.22.1.3), "C" locale, with ghost outputs (models/num_ghost.h).
  *
- * Integer conversions: an executable rendering of 7.22.1.4 paragraphs 2-8:
+ * Integer conversions: a rendering of 7.22.1.4 paragraphs 2-8:
  *   - initial white space (isspace in the "C" locale: space \t \n \v \f \r), optional sign,
  *   - base 16: optional 0x/0X (only when a hexadecimal digit follows); base 0: 0x/0X -> 16, leading 0 -> 8, else 10,
  *   - the longest run of digits/letters whose value is < base is the subject sequence,
@@ -10,6 +10,12 @@
  *   - value outside the range of the return type: UINTMAX_MAX resp. INTMAX_MAX/INTMAX_MIN and errno = ERANGE,
  *   - otherwise the value, negated *in the return type* when the sign is '-' (this is what makes
  *     strtoumax("-1") == UINTMAX_MAX with errno untouched).
+ * All of the above is executed on the real bytes, EXCEPT the magnitude sum(digit_k * base^k) of a numeral of two
+ * or more digits, which under CBMC is an uninterpreted value (nondeterministic 64-bit magnitude or "overflow",
+ * non-zero exactly when some digit is non-zero): exact accumulation is a chain of symbolic 72-bit
+ * multiplications on which the SAT back end does not terminate (measured: > 300 s for 8 characters).  The
+ * proofs therefore hold for every value the numeral could have.  With -DNUM_EXACT (always natively) the
+ * accumulation is exact; that variant is what the native replay uses to recompute the ghosts.
  * Every byte is read through an ordinary dereference, left to right, stopping at the first byte that is not
  * part of the subject sequence: a string that is not NUL-terminated inside its object fails a pointer check
  * at the call site.  All scans are loops with the compile-time bound NUM_STRMAX (completely unwound); reaching
@@ -41,6 +47,7 @@ int g_num_ovf;
 uintmax_t g_num_mag;
 size_t g_num_end;
 int g_num_base;
+int g_num_ndig;
 int g_num_reqbase;
 const char * g_num_sptr;
 double g_num_fval;
@@ -176,6 +183,7 @@ num_scan(const char * s, int base)
 	}
 #endif
 
+	g_num_ndig = ndig;
 	if (g_num_nd)
 		g_num_end = i;
 	else {
@@ -289,6 +297,7 @@ strtod(const char * nptr, char ** endptr)
 	g_num_mag = 0;
 	g_num_fval = v;
 	g_num_frange = rng;
+	g_num_ndig = 0;
 	if (endptr != NULL)
 		*endptr = (char *)(uintptr_t)(nptr + k);
 	return (v);
